@@ -504,6 +504,12 @@ func (c *clipperBase) processIntersectList() {
 		node.edge1.curX = node.pt.X
 		node.edge2.curX = node.pt.X
 
+		// an intersection with an open edge adds no point to the closed
+		// edge's ring, so the closed edge must not be joined to its
+		// neighbour here (the join would link the rings by a chord)
+		if isOpen(node.edge1) || isOpen(node.edge2) {
+			continue
+		}
 		c.checkJoinLeft(node.edge2, node.pt, true)
 		c.checkJoinRight(node.edge1, node.pt, true)
 	}
@@ -897,13 +903,17 @@ func (c *clipperBase) doHorizontal(horz *Active) {
 			if isLeftToRight {
 				c.intersectEdges(horz, ae, pt)
 				c.swapPositionsInAEL(horz, ae)
-				c.checkJoinLeft(ae, pt, false)
+				if !isOpen(horz) { // an open horz adds no point to ae's ring
+					c.checkJoinLeft(ae, pt, false)
+				}
 				horz.curX = ae.curX
 				ae = horz.nextInAEL
 			} else {
 				c.intersectEdges(ae, horz, pt)
 				c.swapPositionsInAEL(ae, horz)
-				c.checkJoinRight(ae, pt, false)
+				if !isOpen(horz) {
+					c.checkJoinRight(ae, pt, false)
+				}
 				horz.curX = ae.curX
 				ae = horz.prevInAEL
 			}
